@@ -8,7 +8,7 @@
 (* (driver side) must be rejected or accepted without crashing and without *)
 (* losing every rule.                                                      *)
 (***************************************************************************)
-EXTENDS PegSyntax, Json, IOUtils
+EXTENDS TreeBuilder, Json, IOUtils
 
 Recs   == ndJsonDeserialize(IOEnv.JUDGE_IN)       \* [sc, outs]
 CHUNKS == atoi(IOEnv.JUDGE_CHUNKS)
@@ -42,6 +42,13 @@ JudgeOut(sc, o) ==
     If(o.panic = "" /\ ~o.ok, Mis(sc, o, "rejected", "accepted", o.err)) \o
     (IF o.panic # "" \/ ~o.ok THEN <<>> ELSE
        If(Got(o) # Expected(sc.grammar), Mis(sc, o, "tree", Expected(sc.grammar), Got(o))) \o
+       \* the recorded builder calls are a behaviour of TreeBuilder that respects the stack discipline
+       \* and denotes the same grammar
+       (LET b == Replay(o.calls, 1, Empty)
+            built == [i \in 1..Len(BuildResult(b)) |-> [name |-> BuildResult(b)[i].name, body |-> Flat(BuildResult(b)[i].body)]]
+        IN If(b.bad # "", Mis(sc, o, "builder-discipline", "", b.bad)) \o
+           If(b.bad = "" /\ ~Closed(b), Mis(sc, o, "builder-left-open", "nothing under construction at the end", Len(b.l))) \o
+           If(b.bad = "" /\ built # Got(o), Mis(sc, o, "builder-model-tree", built, Got(o)))) \o
        If({o.imports[i] : i \in 1..Len(o.imports)} # ImportSet(sc.imports) \cup Runtime,
           Mis(sc, o, "imports", ImportSet(sc.imports) \cup Runtime, o.imports)) \o
        If(o.package # "g" \/ o.struct # "T", Mis(sc, o, "header", <<"g", "T">>, <<o.package, o.struct>>)))
@@ -51,7 +58,7 @@ JudgeOut(sc, o) ==
 RECURSIVE JudgeOuts(_, _, _)
 JudgeOuts(sc, outs, k) == IF k > Len(outs) THEN <<>> ELSE JudgeOut(sc, outs[k]) \o JudgeOuts(sc, outs, k + 1)
 JudgeRec(rec) == JudgeOuts(rec.sc, rec.outs, 1) \o
-  <<[kind |-> "stat", id |-> rec.sc.id, outs |-> Len(rec.outs),
+  <<[kind |-> "stat", id |-> rec.sc.id, outs |-> Len(rec.outs), calls |-> Len(rec.outs[1].calls),
      rejected |-> Cardinality({k \in 1..Len(rec.outs) : ~rec.outs[k].ok}), accepted |-> Cardinality({k \in 1..Len(rec.outs) : rec.outs[k].ok})]>>
 RECURSIVE JudgeChunk(_)
 JudgeChunk(n) == IF n > Len(Recs) THEN <<>> ELSE JudgeRec(Recs[n]) \o JudgeChunk(n + CHUNKS)
